@@ -1380,6 +1380,9 @@ class Evaluator(object):
             if "[call at" in str(e):
                 raise
             raise Unsupported("%s [call at %s in %s]" % (e, span[0], fr.body["key"]))
+        except Diverged:
+            # every path of the callee ends in a panic (each recorded with its path condition): this path of the caller ends here
+            rv = NORETURN
         if rv is NORETURN or target is None:
             return None
         self.write_place(st, fr, dest, rv)
